@@ -53,7 +53,7 @@ var verifC05Csv = [2]uint32{5, 4}
 
 // verifC05ValueIsVerdict: the value/completeness clause (statement: "the value
 // claimable equals its balance plus HTLCs due to it up to fees and dust").
-const verifC05ValueIsVerdict = false
+const verifC05ValueIsVerdict = true
 
 const (
 	verifC05LeaseExpiry = 1000 // ThawHeight set by the engine for lease channels
